@@ -25,6 +25,10 @@ Design specs (spec/)
                     selection rule of Vuong / Giannelli over the level bases of BasisSpline.
   BasisMulti.tla    multipatch spline bases on every small patch layout (AddPatch, Build): per-patch tensor splines glued
                     along coinciding sides.
+Vacuity  TLC -coverage on small complete runs of MergeIndex, BasisMachine and BasisNodal (every action taken); the two
+         actions each of BasisHier / BasisMulti are counted from the Build states TLC emits (TLC exhausts its heap under
+         -coverage on these modules); every operation / basis kind must occur among the emitted states; spec mutants
+         (mask-supp, cont-off, impl-start, merge-max) must violate an invariant.
 Binding
   S->C  every state TLC emits carries the basis structure the model predicts; c12_replay.py constructs the same basis with
         nutils (mesh.rectilinear incl. periodic, products of lines, SubsetTopology, SimplexTopology, refined_by,
@@ -32,7 +36,10 @@ Binding
         fixes the numbering, else up to renumbering), then decides the numeric clauses as the model predicts them:
         sample.eval(basis) = get_coefficients scattered to get_dofs, non-zero functions = get_dofs, sum = 1 on the
         elements the model names, jump of all derivatives up to the promised order = 0 on every interface.
-        util.merge_index_map is run on every input of the MergeIndex machine.
+        util.merge_index_map is run on every input of the MergeIndex machine.  Alternative public routes to the same
+        basis must agree with the same prediction: basis('std'), basis('lagrange') / basis('bernstein') of the structured
+        topology and basis('std') of the same elements as a ConnectedTopology (all through _basis_c0_structured),
+        'h-spline' without refinement, products of one-dimensional topologies, bool / int masks, SubsetTopology.basis.
   T     the dof tables of every replayed real basis, and Mask / Prune / Part children of nodal, hierarchical and
         multipatch bases, are exported and judged by TLC (spec/BasisTables.tla: InverseMaps, MaskOp / PruneOp / PartOp).
 """
@@ -190,7 +197,7 @@ def _run_job(item):
     name, (fam, module, kw, exhaustive) = item
     kw = dict(kw)
     cfg = kw.pop('cfg', None)
-    kw.setdefault('timeout', 1500)
+    kw.setdefault('timeout', 1500 if _STATE.get('tier') == 'quick' else 3600)   # a bound for a loaded machine; the runs take seconds to a few minutes
     kw.setdefault('env', LEAN_JVM if _STATE.get('tier') == 'quick' or fam == 'mutant' else None)
     res = tlc.run(module, cfg, tag=RUNTAG + '-' + name, workers=2, deadlock=False, expect_violation=(fam == 'mutant'), **kw)
     return name, res
@@ -327,6 +334,16 @@ def choose(emitted, rng, limits):
             order.append(strata[k].pop())
             if not strata[k]:
                 del strata[k]
+    # the replay is cut by the clock except for its first chunks: one one-dimensional C0 history per (number of elements,
+    # periodicity) goes first, these are the states whose alternatives run TransformChainsTopology._basis_c0_structured on
+    # self-neighbouring (one periodic element), doubly neighbouring (two) and ordinary grids
+    must, seen = [], set()
+    for h in order:
+        d = h[0]
+        if d['op'] == 'dim' and d['f'] == 'none' and d['a'][3] == 0 and sum(1 for o in h if o['op'] == 'dim') == 1 and (d['a'][1], d['a'][2]) not in seen:
+            seen.add((d['a'][1], d['a'][2]))
+            must.append(h)
+    order = must + [h for h in order if not any(h is m for m in must)]
     cases = collections.OrderedDict()
     cases['struct'] = order[:limits['struct']]
     for fam in ('nodal', 'hier', 'multi'):
